@@ -278,7 +278,20 @@ class LambdaElement(elements.ClauseElement):
                         rec.closure_bindparams = list(bindparams)
                         lambda_cache[key] = rec
                     else:
+                        # another thread analyzed the same lambda between
+                        # the lock-free lookup above and taking the mutex;
+                        # treat it like the cache hit it is, so that this
+                        # invocation's closure values are bound under the
+                        # cached expression's parameter keys
                         rec = lambda_cache[key]
+                        bindparams[:] = [
+                            orig_bind._with_value(
+                                new_bind.value, maintain_key=True
+                            )
+                            for orig_bind, new_bind in zip(
+                                rec.closure_bindparams, bindparams
+                            )
+                        ]
             else:
                 rec = NonAnalyzedFunction(self._invoke_user_fn(fn))
 
